@@ -246,6 +246,18 @@ Next ==
 
 Spec == Init /\ [][Next]_vars
 
+\* every task of the relay eventually runs (the asyncio loop is fair to ready tasks); the environment is not obliged to do anything
+Internal == \/ \E c \in Conns : Send(c) \/ Notice(c) \/ Commit(c)
+            \/ \E c \in Conns, e \in Ids : FanOut(c, e, nf + 1)
+            \/ \E c \in Conns, ok \in BOOLEAN : Accept(c, ok) \/ ReplyOk(c, ok)
+            \/ \E n \in pn, put \in BOOLEAN : Notify(n, put)
+            \/ \E cs \in Registered : QPutEose(cs[1], cs[2], reg[cs[1]][cs[2]].gen)
+FairSpec == Spec /\ WF_vars(Internal)
+            /\ (\A c \in Conns : WF_vars(Send(c)) /\ WF_vars(Notice(c)) /\ WF_vars(\E ok \in BOOLEAN : ReplyOk(c, ok)))
+            /\ (\A d \in Conns : WF_vars(\E ok \in BOOLEAN : Accept(d, ok)) /\ WF_vars(\E e \in Ids : FanOut(d, e, nf + 1)))
+            /\ WF_vars(\E n \in pn, put \in BOOLEAN : Notify(n, put))
+            /\ WF_vars(\E cs \in Registered : QPutEose(cs[1], cs[2], reg[cs[1]][cs[2]].gen))
+
 ----------------------------------------------------------------------------
 (* Properties.  Invariants, and action properties [][A_Cxx]_vars whose bodies are named so that the trace
    specification can evaluate them on every step of every recorded execution. *)
@@ -317,6 +329,13 @@ C05_FanOutExact         == [][A_C05_FanOutExact]_vars
 C05_PushOnlyByNotify    == [][A_C05_PushOnlyByNotify]_vars
 C05_LiveMatchAgrees     == [][A_C05_LiveMatchAgrees]_vars
 C06_OkMatchesOutcome    == [][A_C06_OkMatchesOutcome]_vars
+
+\* liveness (checked under FairSpec on a tiny instance, MC_Relay_live): an EVENT is eventually answered, a pending notify
+\* task eventually runs, what is queued for a connected client is eventually sent, a refused REQ eventually gets its NOTICE
+L_EventuallyOk == \A c \in Conns : (busy[c] # <<>>) ~> (busy[c] = <<>>)
+L_EventuallyNotified == (pn # {}) ~> (pn = {})
+L_EventuallySent == \A c \in Conns : (c \in open /\ outbox[c] # <<>>) ~> (outbox[c] = <<>> \/ c \notin open)
+L_NeverSilent == \A c \in Conns : (owes[c] > 0) ~> (owes[c] = 0)
 
 \* nothing is pending: what "every REQ is eventually answered, every accepted event eventually delivered" means
 \* at a point where no task can run without the environment
